@@ -173,6 +173,65 @@ func TestC19(t *testing.T) {
 			}
 		}
 	})
+	// Second family: LONGER bases (up to 12 / 14 letters) with targets derived from the base
+	// - unchanged, one letter flipped, one letter inserted, one letter deleted, two blocks
+	// swapped - for every block size up to 6. Longer bases are needed for the clause "an
+	// unchanged target is sent without literal data": two DISTINCT blocks with the same weak
+	// hash need block size >= 4 over a two-letter alphabet ("abba" vs "baab"), i.e. bases of
+	// length >= 8, which the full product above does not reach in the quick tier.
+	longLen := 12
+	if vr.Thorough() {
+		longLen = 14
+	}
+	long := words(longLen)
+	var longBases [][]byte
+	for _, w := range long {
+		if len(w) > maxLen {
+			longBases = append(longBases, w)
+		}
+	}
+	vr.Parallel(len(longBases), func(i int) {
+		e := rsync.NewEngine()
+		l := r.Local()
+		defer l.Flush()
+		base := longBases[i]
+		targets := [][]byte{base}
+		if i%8 == 0 { // derived edits on every 8th base keep the family cheap; "unchanged" runs on all
+			for p := 0; p < len(base); p += 3 {
+				f := append([]byte{}, base...)
+				f[p] ^= 'a' ^ 'b'
+				targets = append(targets, f)
+				targets = append(targets, append(append(append([]byte{}, base[:p]...), 'b'), base[p:]...))
+				targets = append(targets, append(append([]byte{}, base[:p]...), base[p+1:]...))
+			}
+			if len(base) >= 8 {
+				targets = append(targets, append(append(append([]byte{}, base[4:8]...), base[:4]...), base[8:]...))
+			}
+		}
+		for _, target := range targets {
+			for bs := uint64(1); bs <= 6; bs++ {
+				for _, rd := range []string{"bytes", "plain"} {
+					c := c19case{string(base), string(target), bs, 3, rd}
+					what, nd, nb := checkRoundTrip(e, c)
+					if what != "" {
+						r.Violate(vr.J(c), what, c, func() bool { w, _, _ := checkRoundTrip(rsync.NewEngine(), c); return w != "" })
+					}
+					if nb > 0 {
+						l.Case(fmt.Sprintf("L|%s|%s|%d|%s", base, target, bs, rd), true)
+					} else {
+						l.Case("", false)
+					}
+					if nd == 0 && nb > 0 {
+						l.Outcome("block-only")
+					} else {
+						l.Outcome("long-family-other")
+					}
+				}
+			}
+		}
+	})
+	r.Set("long_family", fmt.Sprintf("%d bases of length %d..%d x {unchanged (all), flip/insert/delete/swap (every 8th base)} x block size 1..6 x {bytes, plain}", len(longBases), maxLen+1, longLen))
+	r.Sample(c19case{"abbabaab", "abbabaab", 4, 3, "bytes"})
 	r.Sample(c19case{"abab", "babab", 2, 1, "bytes"})
 	r.Sample(c19case{"aabba", "abbaab", 3, 2, "plain"})
 }
